@@ -12,10 +12,12 @@ def discover() -> dict[str, tuple[str, str, str, str]]:
     import glob
     import importlib
     out = {}
+    # only properties the coordinator has reviewed and listed in harness/claimed.txt are claimed
+    claimed = set(open(os.path.join(VERIF, "harness", "claimed.txt")).read().split())
     for f in sorted(glob.glob(os.path.join(VERIF, "harness", "props", "c[0-9][0-9].py"))):
         name = os.path.basename(f)[:-3]
         m = getattr(importlib.import_module("harness.props." + name), "MANIFEST", None)
-        if m:
+        if m and name.upper() in claimed:
             out[name.upper()] = (m["technique"], m["text"], m["note"], m["design_ref"])
     return out
 
